@@ -21,13 +21,16 @@
    under the producer's label stages the producer's accounts, resources and totals, and its boxes up
    to the key‖value ambiguity of C15 (recorded finding; c16_kv_boundary_shift_accepted) -- "except
    through a hash collision" being the explicit premises [label_binds] .. [leaf_RK].
-   restore (write world) = world is proved on the example only ([C16_ex_honest_restores]) and compared
-   with the real writer / accessor on every generated file (suffix _partial does not apply: there is no
-   general theorem; see checks/C16.py). *)
+   restore (write world) = world: [C16_restore_flat_file_partial] proves it for EVERY well-formed world and
+   the unchunked file (one balances section, one complete record per account); that cutting the stream
+   into chunks and splitting accounts over records with ExpectingMoreEntries ([write_file]) does not
+   change the result is NOT proved -- it is compared with the real writer + accessor on every generated
+   file (the model's writer must reproduce the real chunk boundaries and flags) and shown on the
+   example [C16_ex_honest_restores]. *)
 From Coq Require Import List NArith ZArith Bool.
 Import ListNotations.
 From Verif.model Require Import MerkleTrie MerkleTrieSpec CatchpointHash CatchpointFile CatchpointFileCheck.
-From Verif.proofs Require Import CatchpointFileProofs CatchpointFileRefute.
+From Verif.proofs Require Import CatchpointFileProofs CatchpointFileRefute CatchpointFileWrite.
 Open Scope N_scope.
 
 (* invariant of the repaired accessor after ANY section list: addresses are staged once; every
@@ -85,6 +88,23 @@ Theorem C16_accepted_binds_state :
      (forall k v, In (k, v) (a_kvs a0) -> exists k' v', In (k', v') (a_kvs a) /\ k ++ v = k' ++ v')).
 Proof. exact accepted_binds_state. Qed.
 Print Assumptions C16_accepted_binds_state.
+
+(* RESTORE (partial: the unchunked file; both accessors): for every well-formed world -- distinct
+   addresses, distinct creatable indexes per account, Total* counters matching the resources,
+   distinct KV keys / online rows -- whose entries have pairwise different leaves of one length
+   (no C15 collision), the accessor accepts the world's file under the producer's label (root of
+   the canonical trie of the leaf set, C14 / C17) and adopts EXACTLY that world *)
+Theorem C16_restore_flat_file_partial :
+  forall (fixed : bool) (H : bytes -> bytes) (tot_of : bytes -> counts) (flags_of : bytes -> bool * bool * bool * bool)
+         (leafA : bytes -> bytes -> bytes) (leafR : bytes -> N -> bytes -> bytes) (leafK : bytes -> bytes -> bytes)
+         (n : nat) (ver balr blkr : N) (digest : bytes) (w : world),
+  (129 <=? ver) && (ver <=? 131) = true -> wf_world tot_of flags_of w ->
+  NoDup (flat_hashes leafA leafR leafK w) ->
+  (forall h, In h (flat_hashes leafA leafR leafK w) -> length h = n /\ bytes_ok h) ->
+  exists t, restore fixed H tot_of flags_of leafA leafR leafK (flat_file ver balr blkr w)
+                    (producer_label H leafA leafR leafK ver blkr digest w) blkr digest = Accepted (w, t).
+Proof. exact restore_flat_file. Qed.
+Print Assumptions C16_restore_flat_file_partial.
 
 (* the accessor AS IT WAS: a tampered file is accepted under the producer's label and restores
    other account data, with the very same trie (injective builders, H = identity: no collision,
